@@ -393,6 +393,7 @@ def run_programs(ctx, res, jinja2, runner, boost):
             if nontrivial:
                 distinct.add(phash(templates, cls, ae))
             d = dict(outs)
+            mixed_chain_join = None
             for a, b in diffs:
                 stats["e2e_differences"] += 1
                 shape = a.split(":")[-1]
@@ -404,6 +405,24 @@ def run_programs(ctx, res, jinja2, runner, boost):
                                 f"{d[b][1]} for {templates[main][:300]!r} — NativeTemplate.render feeds the running generator to native_concat, "
                                 "so a piece whose str() raises is reported before a later error of the template; render_async collects the "
                                 "pieces first", dict(case, first=a, second=b, outputs={k: list(v) for k, v in outs}))
+                    continue
+                if mixed_chain_join is None:
+                    # one specific cause is recognised (genuine, recorded as a known finding): under a per-name autoescape decision a
+                    # template of the chain that is compiled with ANOTHER decision than the rendered one folds `constants|join` at
+                    # compile time in sync mode (its own decision), while async mode cannot fold the async-variant filter and runs
+                    # it under the rendered template's decision.  Recognised by re-running the case with the rendered template's
+                    # decision for every name: the difference must vanish.
+                    mixed_chain_join = False
+                    if ae in ("select", "lambda") and main.endswith(".html") and any("|join" in t for n, t in templates.items() if n != main):
+                        _, outs_u, diffs_u = L.oracle(jinja2, runner, cls, templates, main, spec, True, modes, env_kw)
+                        stats["renders"] += len(outs_u)
+                        mixed_chain_join = not diffs_u
+                if mixed_chain_join:
+                    res.violate("C09:e2e:mixed-autoescape-chain:join-folded",
+                                f"{cls} autoescape={ae} (decides per template name): {a} gives {d[a]!r} but {b} gives {d[b]!r} for "
+                                f"{templates[main][:200]!r}; with one decision for every name all entry points agree — sync mode folds "
+                                "`constants|join` of an inherited/imported template under that template's own decision, async mode runs "
+                                "the filter under the rendered template's", dict(case, first=a, second=b, outputs={k: list(v) for k, v in outs}))
                     continue
                 res.violate(diff_key(cls, b), f"{cls} autoescape={ae}: {a} gives {d[a]!r} but {b} gives {d[b]!r} for {templates[main][:300]!r}",
                             dict(case, first=a, second=b, outputs={k: list(v) for k, v in outs}))
